@@ -110,6 +110,9 @@ func cmdSelftest(args []string) int {
 			}
 			cmd := exec.Command(self, "check", c.prop, "--tier", "quick")
 			cmd.Env = append(os.Environ(), "GOVC_REPO="+repo, "GOVC_OUTDIR="+out)
+			if c.mustFail {
+				cmd.Env = append(cmd.Env, "GOVC_BUDGET=10")
+			}
 			b, _ := cmd.CombinedOutput()
 			code := cmd.ProcessState.ExitCode()
 			viol := strings.Contains(string(b), "VIOLATION property="+c.prop)
